@@ -114,6 +114,53 @@ class Scenario:
         out.pair("clone taken under no_grad does not follow the source", c.data, snap)
         return out
 
+    def s_untracked_bridge(self, env):
+        """a result computed while gradients are not tracked cuts the graph: a backward call from further down must not reach
+        (allocate, zero or change) the gradients of what lies behind it"""
+        import synapgrad
+        out = E.Outcome()
+        Tn = T()
+        x = Tn(env.arr("x", (2,)))
+        w = Tn(env.arr("w", (2,)), requires_grad=True)          # "encoder" parameter, never differentiated here
+        v = Tn(env.arr("v", (2,)), requires_grad=True)          # "head" parameter
+        with synapgrad.no_grad():
+            feats = x * w
+        (feats * v).sum().backward()
+        out.fact("a parameter behind an untracked result gets no gradient buffer", gradof(w) is None,
+                 "its .grad is %s" % ("None" if gradof(w) is None else "an array"))
+        out.pair("the tracked parameter's gradient", snapshot(gradof(v)), snapshot(feats.data))
+        # an intermediate result that holds a retained gradient, later used by an untracked computation
+        u = Tn(env.arr("u", (2,)), requires_grad=True)
+        h = u * 3.0
+        h.retain_grad()
+        g = env.arr("g", (2,))
+        h.backward(Tn(g))
+        kept_h, kept_u = snapshot(gradof(h)), snapshot(gradof(u))
+        with synapgrad.no_grad():
+            f2 = h * 2.0
+        (f2 * v).sum().backward()
+        out.pair("a retained gradient behind an untracked result is left alone", snapshot(gradof(h)), kept_h)
+        out.pair("a leaf gradient behind an untracked result is left alone", snapshot(gradof(u)), kept_u)
+        return out
+
+    def s_wrapped_tensor_own_gradient(self, env):
+        """Tensor(t) / nn.Parameter(t) may share the data of t, but the wrapper's gradient is its own: differentiating a graph
+        of the wrapper must not change t's gradient (t is outside that graph)"""
+        from synapgrad import nn
+        out = E.Outcome()
+        Tn = T()
+        w = Tn(env.arr("w", (2,)), requires_grad=True)
+        g1 = env.arr("g1", (2,))
+        (w * 3.0).backward(Tn(g1))
+        before = snapshot(gradof(w))
+        p = nn.Parameter(w)
+        g2 = env.arr("g2", (2,))
+        (p * 5.0).backward(Tn(g2))
+        out.pair("the wrapped tensor's gradient is untouched by a backward through the wrapper", snapshot(gradof(w)), before)
+        out.fact("wrapper and wrapped tensor do not share a gradient buffer",
+                 gradof(p) is None or gradof(w) is None or not np.shares_memory(ar.unwrap(gradof(p)), ar.unwrap(gradof(w))))
+        return out
+
     def s_loss_target_untouched(self, env):
         out = E.Outcome()
         Tn = T()
@@ -149,7 +196,8 @@ class Scenario:
 
 
 SCENARIOS = ["leaf_root_then_accumulate", "seed_reused_twice", "views_of_one_array", "tensor_used_by_several_ops",
-             "clone_detach_independent", "clone_detach_independent_under_no_grad", "loss_target_untouched"]
+             "clone_detach_independent", "clone_detach_independent_under_no_grad", "loss_target_untouched", "untracked_bridge",
+             "wrapped_tensor_own_gradient"]
 
 
 def enumerate_specs(tier):
